@@ -183,12 +183,13 @@ type c03Case struct {
 	MaxRetry  int    `json:"max_retry"`
 	Seeds     int    `json:"seeds"`
 	Assets    int    `json:"assets"`
+	Links     int    `json:"links"` // outlinks per page; > 0 implies --max-hops 1
 	Moment    string `json:"moment"` // arrival | midbody | complete | idle | hook | paused
 	K         int    `json:"k"`      // request number / hit number
 	Point     string `json:"point,omitempty"`
 }
 
-var c03Points = []string{"preprocessor.forward", "archiver.beforeDo", "archiver.afterFeedback", "archiver.forward", "postprocessor.forward",
+var c03Points = []string{"preprocessor.received", "archiver.received", "postprocessor.received", "postprocessor.outlinks", "finisher.received", "preprocessor.forward", "archiver.beforeDo", "archiver.afterFeedback", "archiver.forward", "postprocessor.forward",
 	"finisher.feedback", "finisher.beforeMarkFinished", "finisher.afterMarkFinished", "finisher.afterNotify", "lq.get.committed", "lq.finisher.beforeDelete"}
 
 func genC03(t *rapid.T) c03Case {
@@ -202,6 +203,7 @@ func genC03(t *rapid.T) c03Case {
 		MaxRetry:  rapid.IntRange(0, 1).Draw(t, "maxretry"),
 		Seeds:     rapid.IntRange(1, 6).Draw(t, "seeds"),
 		Assets:    rapid.IntRange(0, 3).Draw(t, "assets"),
+		Links:     []int{0, 0, 3, 12}[rapid.IntRange(0, 3).Draw(t, "links")],
 		Moment:    []string{"arrival", "midbody", "complete", "idle", "hook", "hook", "paused", "paused"}[rapid.IntRange(0, 7).Draw(t, "moment")],
 	}
 	total := c.Seeds * (1 + c.Assets)
@@ -234,6 +236,9 @@ func c03Args(c c03Case, o *Origin, proxyURL string) []string {
 	if !c.Seencheck {
 		args = append(args, "--disable-seencheck")
 	}
+	if c.Links > 0 {
+		args = append(args, "--max-hops", "1")
+	}
 	return args
 }
 
@@ -259,6 +264,7 @@ func runC03(t veriflib.TB, c c03Case) (res c03Result) {
 	if err != nil {
 		t.Fatalf("harness: origin: %v", err)
 	}
+	o.Links = c.Links
 	defer o.Close()
 	var px *Socks5
 	proxyURL := ""
@@ -316,7 +322,11 @@ func runC03(t veriflib.TB, c c03Case) (res c03Result) {
 		}
 	case "idle":
 		waitFor(60*time.Second, func() bool { return len(o.Log()) >= total || ch.exited() })
-		time.Sleep(700 * time.Millisecond)
+		for last, since := -1, time.Now(); time.Since(since) < 1500*time.Millisecond && !ch.exited(); time.Sleep(100 * time.Millisecond) {
+			if n := len(o.Log()); n != last {
+				last, since = n, time.Now()
+			}
+		}
 		sendTerm()
 	case "hook":
 		// the child sends SIGTERM to itself at the hook point; if the point is never reached, stop it when idle
@@ -430,7 +440,7 @@ func propC03(t veriflib.TB, c c03Case) {
 		veriflib.Fail(t, "C03", "C03/proc", c, res, "%s", res.Viol)
 	}
 	cl := []string{"moment:" + c.Moment, fmt.Sprintf("workers:%d", c.Workers), fmt.Sprintf("pool:%d", c.Pool), fmt.Sprintf("proxy:%v", c.Proxy),
-		fmt.Sprintf("async:%v", c.Async), fmt.Sprintf("ratelimit:%v", c.RateLimit), fmt.Sprintf("seencheck:%v", c.Seencheck), fmt.Sprintf("maxretry:%d", c.MaxRetry)}
+		fmt.Sprintf("async:%v", c.Async), fmt.Sprintf("ratelimit:%v", c.RateLimit), fmt.Sprintf("seencheck:%v", c.Seencheck), fmt.Sprintf("maxretry:%d", c.MaxRetry), fmt.Sprintf("links:%d", c.Links)}
 	if c.Point != "" {
 		cl = append(cl, "point:"+c.Point)
 	}
